@@ -248,23 +248,86 @@ func vpH_c04_transform() {
 
 func vpH_c04_error() {
 	bad := "${A" // unterminated brace expansion: the library reports an error
-	where := vpInt(0, 4)
-	cmdStep := &CommandStep{Command: "ok"}
-	p := &Pipeline{Steps: Steps{cmdStep}}
+	ok := "fine $$X"
+	cmdStep := &CommandStep{
+		Command: ok, Label: ok, Key: "k",
+		Env: map[string]string{"E": ok},
+		Plugins: Plugins{
+			{Source: "bare#v1"},
+			{Source: "cfg#v1", Config: map[string]any{"k": []any{ok}}},
+			{Source: "scalar#v1", Config: ok},
+		},
+		Matrix:          &Matrix{Setup: MatrixSetup{"os": {ok}}, Adjustments: MatrixAdjustments{{With: MatrixAdjustmentWith{"os": ok}, RemainingFields: map[string]any{"soft_fail": ok}}}, RemainingFields: map[string]any{"m": ok}},
+		Cache:           &Cache{Paths: []string{ok}, RemainingFields: map[string]any{"c": ok}},
+		RemainingFields: map[string]any{"r": ok},
+	}
+	wait := &WaitStep{Contents: map[string]any{"wait": ok}}
+	input := &InputStep{Contents: map[string]any{"block": ok}}
+	trigger := &TriggerStep{Contents: map[string]any{"trigger": ok}}
+	grp := &GroupStep{RemainingFields: map[string]any{"g": ok}, Steps: Steps{&WaitStep{Contents: map[string]any{"k": ok}}}}
+	unk := &UnknownStep{Contents: map[string]any{"u": ok}}
+	p := &Pipeline{Steps: Steps{cmdStep, wait, input, trigger, grp, unk}, RemainingFields: map[string]any{"x": ok}}
+	p.Env = ordered.NewMap[string, string](1)
+	p.Env.Set("P", ok)
+	where := vpInt(0, 26)
 	switch where {
 	case 0:
 		cmdStep.Command = bad
 	case 1:
-		cmdStep.Env = map[string]string{"k": bad}
+		cmdStep.Env["E"] = bad
 	case 2:
-		cmdStep.Plugins = Plugins{{Source: "p", Config: map[string]any{"k": []any{bad}}}}
+		cmdStep.Plugins[1].Config = map[string]any{"k": []any{ok, bad}}
 	case 3:
 		p.RemainingFields = map[string]any{bad: "v"}
 	case 4:
-		p.Steps = append(p.Steps, &GroupStep{Steps: Steps{&WaitStep{Contents: map[string]any{"k": bad}}}})
+		grp.Steps = Steps{&WaitStep{Contents: map[string]any{"k": bad}}}
+	case 5:
+		cmdStep.Label = bad
+	case 6:
+		cmdStep.Plugins[0].Source = "bare-" + bad
+	case 7: // a failing source next to a config that expands fine
+		cmdStep.Plugins[1].Source = "cfg-" + bad
+	case 8:
+		cmdStep.Plugins[2].Source = "scalar-" + bad
+	case 9:
+		cmdStep.Plugins[2].Config = bad
+	case 10:
+		cmdStep.Plugins[1].Config = map[string]any{bad: "v", "k": ok}
+	case 11:
+		cmdStep.Matrix.Setup["os"] = []string{ok, bad}
+	case 12:
+		cmdStep.Matrix.Adjustments[0].With["os"] = bad
+	case 13:
+		cmdStep.Matrix.Adjustments[0].RemainingFields["soft_fail"] = bad
+	case 14:
+		cmdStep.Matrix.RemainingFields["m"] = bad
+	case 15:
+		cmdStep.Cache.Paths = []string{ok, bad}
+	case 16:
+		cmdStep.Cache.RemainingFields["c"] = bad
+	case 17:
+		cmdStep.RemainingFields["r"] = bad
+	case 18:
+		cmdStep.RemainingFields = map[string]any{bad: "v", "r": ok}
+	case 19:
+		wait.Contents["wait"] = bad
+	case 20:
+		input.Contents["block"] = bad
+	case 21:
+		trigger.Contents = map[string]any{"trigger": ok, bad: "v"}
+	case 22:
+		grp.RemainingFields["g"] = bad
+	case 23:
+		unk.Contents = map[string]any{"u": []any{ok, bad}}
+	case 24:
+		p.Env.Set("P", bad)
+	case 25:
+		p.Env.Set(bad, "v")
+	case 26:
+		p.RemainingFields["x"] = map[string]any{"deep": []any{ok, map[string]any{"d": bad}}}
 	}
 	err := p.Interpolate(env.New(), false)
-	vpAssert(err != nil, "a failing expansion makes the call report an error")
+	vpAssert(err != nil, "a failing expansion makes the call report an error, at whichever position it stands and whatever expands fine next to it")
 }
 
 // ---- (a) the generic walkers on arbitrary small trees ----
